@@ -106,7 +106,13 @@ PROPS = {
     },
     "C04": {
         "class_prefixes": ["c04-", "harness-crash"],
-        "subs": [{"name": "typed", "n_quick": 1200, "n_thorough": 6000, "oracle": False,
+        "subs": [
+            {"name": "fdec", "n_quick": 400, "n_thorough": 6000, "model": "coq/Frame/AmqpFrame.v, coq/Codec/Composite.v",
+             "rule": "the AMQP frame codec on the bytes after the size field: `enc` = a generated frame (9 performatives with random field presence and "
+                     "boundary values, channels 0 / 65535 / random, transfer payloads of 0..300 bytes) written by the real Transport / FrameEncoder and read "
+                     "back by the real FrameDecoder, against enc_frame and dec_frame; `dec` = the same frame under other headers (doff 0,1,3,4,255; type "
+                     "1,2,255), cut short anywhere outside a nested composite and inside the header, the descriptor by name (sym8, sym32) or as a long "
+                     "ulong, unknown and foreign descriptors, trailing bytes after a performative without payload, 19 fixed short frames, random bytes"},{"name": "typed", "n_quick": 1200, "n_thorough": 6000, "oracle": False,
              "rule": "typed protocol items (9 performatives + Performative, 5 SASL frames, DeliveryState/Outcome with every variant, Error, "
                      "Source, Target, TargetArchetype, Coordinator, message sections, Message<Body<Value>> with all 64 section subsets x 4 body kinds): "
                      "random field presence and boundary values; on the implementation: from_slice(to_vec(x)) == x and re-encodes equally, "
@@ -149,6 +155,12 @@ PROPS = {
     "C06": {
         "class_prefixes": ["c06-", "harness-crash", "c07-fifo"],
         "subs": [
+            {"name": "fdec", "n_quick": 400, "n_thorough": 6000, "model": "coq/Frame/AmqpFrame.v, coq/Codec/Composite.v",
+             "rule": "the AMQP frame codec on the bytes after the size field: `enc` = a generated frame (9 performatives with random field presence and "
+                     "boundary values, channels 0 / 65535 / random, transfer payloads of 0..300 bytes) written by the real Transport / FrameEncoder and read "
+                     "back by the real FrameDecoder, against enc_frame and dec_frame; `dec` = the same frame under other headers (doff 0,1,3,4,255; type "
+                     "1,2,255), cut short anywhere outside a nested composite and inside the header, the descriptor by name (sym8, sym32) or as a long "
+                     "ulong, unknown and foreign descriptors, trailing bytes after a performative without payload, 19 fixed short frames, random bytes"},
             {"name": "frame", "n_quick": 300, "n_thorough": 6000, "model": "coq/Frame/Transfer.v, coq/Lib/LengthDelimited.v",
              "rule": "xfer: random Transfer performatives (tags 0..32 bytes, every optional field) with payload lengths within +-40 of each "
                      "multiple of the frame body size and random up to 3 frames, M in {512,513,600,1024} (4096, 65536 in thorough), sent "
@@ -500,6 +512,12 @@ PROPS = {
     "C15": {
         "class_prefixes": ["c15-", "harness-crash"],
         "subs": [
+            {"name": "fdec", "n_quick": 400, "n_thorough": 6000, "model": "coq/Frame/AmqpFrame.v, coq/Codec/Composite.v",
+             "rule": "the AMQP frame codec on the bytes after the size field: `enc` = a generated frame (9 performatives with random field presence and "
+                     "boundary values, channels 0 / 65535 / random, transfer payloads of 0..300 bytes) written by the real Transport / FrameEncoder and read "
+                     "back by the real FrameDecoder, against enc_frame and dec_frame; `dec` = the same frame under other headers (doff 0,1,3,4,255; type "
+                     "1,2,255), cut short anywhere outside a nested composite and inside the header, the descriptor by name (sym8, sym32) or as a long "
+                     "ulong, unknown and foreign descriptors, trailing bytes after a performative without payload, 19 fixed short frames, random bytes"},
             {"name": "hostile", "n_quick": 300, "n_thorough": 3000, "oracle": False,
              "rule": "client and listener brought by a valid prelude into one of 13 states (header only .. open, begun, sender / receiver attached with credit, mid multi-frame "
                      "delivery, delivery unsettled, detach / end / close sent), then one stimulus from a catalogue of 180 (frame sizes 0..0xffffffff, doff and type bytes, "
